@@ -2,8 +2,9 @@
    reference decoder, and (theorem C05_hops) the line-based hop count `HopCount.hopSpec` evaluated on the
    hop count the implementation reported; (theorems C05_chunking*) the chunked loop `SmtpIO.sblast` run with the
    harness's read plan as read script, and the chunk-independence oracle.
-   Input lines: `<plan> <stream> <A|S|E|T> <stored> <consumed> <hops> <ssin.p> <ssin.n> <nreads>` (plan: see Drv/SmtpPlan.lean;
-   `inp` below is the stream after the plan's pre-consumed prefix, i.e. what blast() has to decode) -/
+   Input lines: `<plan> <stream> <A|S|E|T> <stored> <consumed> <hops> <ssin.p> <ssin.n> <nreads> <delivered>` (plan: see
+   Drv/SmtpPlan.lean; `inp` below is the stream after the plan's pre-consumed prefix, i.e. what blast() has to decode;
+   `delivered` = bytes of the stream the read() calls had returned when the case ended) -/
 import Drv.Util
 import Drv.SmtpPlan
 import Nq.SmtpIn
@@ -19,7 +20,7 @@ def statusOf : DRes → String
 
 def handle (sigs : SigRef) (st : Stats) (line : String) : IO Stats := do
   match fields line with
-  | [chunk, inh, status, storedh, consumedS, hopsS, pS, nS, nreadsS] =>
+  | [chunk, inh, status, storedh, consumedS, hopsS, pS, nS, nreadsS, deliveredS] =>
     match unhex inh, unhex storedh, parsePlan chunk with
     | some stream, some stored, some plan =>
       let inp := stream.drop plan.skip
@@ -30,6 +31,15 @@ def handle (sigs : SigRef) (st : Stats) (line : String) : IO Stats := do
                               nontrivial := st.nontrivial + (if fresh && nontriv then 1 else 0) }
       st := st.bump ("chunk" ++ plan.cls)
       st := st.bump ("status" ++ status)
+      /- a death under a plan with a failing read (audit E, item 4) is legitimate only if (a) the decoder had no verdict yet on
+         the bytes the program had been given (it reads only when its buffer is empty, so it had consumed all of them), and
+         (b) the process stopped AT the failing call: the number of read() calls made is the 1-based index of the first
+         failing entry of the plan (or the whole stream had been delivered: end of input) -/
+      let delivered := (deliveredS.toNat?).getD stream.length
+      let given := (stream.take delivered).drop plan.skip
+      let stoppedAtFail := match plan.firstFail with
+        | some k => nreadsS.toNat? == some (k + 1) || delivered == stream.length
+        | none => false
       let model := dblast inp
       let agree := match status, model with
         | "A", .accepted body rest =>
@@ -37,7 +47,7 @@ def handle (sigs : SigRef) (st : Stats) (line : String) : IO Stats := do
             hopsS.toInt? == some (Int.ofNat (hopsOf (inp.take (inp.length - rest.length))))
         | "S", .stray => true
         | "E", .incomplete => true
-        | "E", _ => plan.hasFail          -- the pure automaton knows nothing about failing reads; `sblast` below does
+        | "E", _ => plan.hasFail && stoppedAtFail && dblast given == .incomplete   -- the pure automaton on what had been delivered
         | _, _ => false
       if !agree then
         let ms := match model with
@@ -52,7 +62,7 @@ def handle (sigs : SigRef) (st : Stats) (line : String) : IO Stats := do
             hopsS.toInt? == some (Int.ofNat (Nq.HopCount.hopSpec (inp.take (inp.length - rest.length))))
         | "S", .stray => true
         | "E", .incomplete => true
-        | "E", _ => plan.hasFail          -- C05_chunking_anyscript: a failing read() may end the session (die_read), nothing else
+        | "E", _ => plan.hasFail && stoppedAtFail && rfcDecode given == .incomplete  -- C05_chunking_anyscript: only a failing read() ends the session early
         | _, _ => false
       if !ok then
         let sh := match spec with
